@@ -822,8 +822,55 @@ pub fn cases(tier: &str) -> Vec<Value> {
             out.push(json!({"engine":"enet","check":"c07","kind":"big","listener":listener,"client":client,"advertised":adv}));
         }
     }
+    // uptime: the service has been up (and silent) for a day or more when the query arrives -- state
+    // with a lifetime (the cookie keys rotate after 24-36 h) must not cost the client its reply
+    for hours in [0u64, 23, 25, 37, 49, 73, 110] {
+        for edns in ["plain", "cookie", "none"] {
+            for tr in ["udp", "tcp"] {
+                out.push(json!({"engine":"enet","check":"c07","kind":"uptime","hours":hours,"edns":edns,"transport":tr}));
+            }
+        }
+    }
     out.push(json!({"engine":"enet","check":"c07","kind":"in_addr"}));
     out
+}
+
+fn run_uptime(case: &Value) -> CaseResult {
+    let spec = RigSpec { listeners: vec!["::1".into()], n_upstreams: 1, yaml: BASE_YAML.into() };
+    let mut rig = match Rig::start(&spec) {
+        Ok(r) => r,
+        Err(e) => return CaseResult::machinery(e),
+    };
+    let hours = case["hours"].as_u64().unwrap_or(0);
+    let mut res = CaseResult::ok(format!("uptime:{}", if hours >= 24 { "day+" } else { "fresh" }));
+    let cip: IpAddr = "::1".parse().unwrap();
+    let r = json!({"rcode":0,"an":[0],"ns":[],"ar":[],"compress":true,"opt":true});
+    // a first exchange at start-up (keys get used once), then silence, then two more exchanges
+    let mut k = 0u16;
+    let mut ask = |rig: &mut Rig, name: &str, res: &mut CaseResult| {
+        k += 1;
+        let q = json!({"name":name,"type":1,"class":1,"edns":case["edns"],"flags":"rd","transport":case["transport"]});
+        match crate::checks::c03::exchange(rig, &q, &r, 0x4500 + k, cip, 0) {
+            Ok(ex) if ex.client_reply.is_some() => {}
+            Ok(_) => res.violations.push(Violation::new("exactly-one-reply", format!("after {hours} h of uptime a {} query with EDNS '{}' for {name} received no reply", case["transport"].as_str().unwrap_or(""), case["edns"].as_str().unwrap_or("")), case.clone()).sig("transport", case["transport"].as_str().unwrap_or("")).sig("replies", "0").sig("cause", "uptime")),
+            Err(e) => res.violations.push(Violation::new("exactly-one-reply", format!("after {hours} h of uptime a {} query with EDNS '{}' for {name} was not served: {e}", case["transport"].as_str().unwrap_or(""), case["edns"].as_str().unwrap_or("")), case.clone()).sig("transport", case["transport"].as_str().unwrap_or("")).sig("replies", "0").sig("cause", "uptime")),
+        }
+    };
+    ask(&mut rig, "up0.example", &mut res);
+    if hours > 0 {
+        rig.advance(Duration::from_secs(hours * 3600));
+    }
+    if res.violations.is_empty() {
+        ask(&mut rig, "up1.example", &mut res);
+    }
+    if res.violations.is_empty() {
+        ask(&mut rig, "up2.example", &mut res);
+    }
+    let ps = rig.stop();
+    if let Some(p) = ps.first() {
+        res.violations.push(Violation::new("exactly-one-reply", format!("service task panicked: {} at {}", p.msg, panics::short_loc(&p.loc)), case.clone()).sig("panic_loc", panics::short_loc(&p.loc)));
+    }
+    res
 }
 
 /// A UDP client advertising a large EDNS size asks for answers of up to 65535 octets: whatever the
@@ -975,6 +1022,7 @@ pub fn run_case(case: &Value) -> CaseResult {
     match case["kind"].as_str() {
         Some("family") => return run_family(case),
         Some("big") => return run_big(case),
+        Some("uptime") => return run_uptime(case),
         Some("in_addr") => return run_in_addr(case),
         _ => {}
     }
